@@ -97,15 +97,32 @@ def buffer_key(a):
     return id(b) if b.size == 0 else b.__array_interface__['data'][0]
 
 
+def lookups(ix):
+    """What the index ANSWERS for its own labels (label -> position, membership): a label map or the offsets of a hierarchy can be
+    damaged while the labels themselves still read the same.  All labels of a small index, both ends of a long one."""
+    labs = list(ix)
+    pos = list(range(len(labs))) if len(labs) <= 48 else list(range(16)) + list(range(len(labs) - 16, len(labs)))
+    out = []
+    for p in pos:
+        lab = labs[p]
+        lab = tuple(lab) if ix.depth > 1 else lab
+        try:
+            r = ix.loc_to_iloc(lab)
+            out.append(int(r) if isinstance(r, (int, np.integer)) else repr(r)[:40])
+        except Exception as ex:
+            out.append('err:' + err_cat(ex))
+    return tuple(out)
+
+
 def snap(o):
     import static_frame as sf
     from static_frame.core.index_base import IndexBase
     if isinstance(o, sf.Frame):
-        return frame_snapshot(o)
+        return {'snap': frame_snapshot(o), 'index_answers': lookups(o.index), 'columns_answers': lookups(o.columns)}
     if isinstance(o, sf.Series):
-        return series_snapshot(o)
+        return {'snap': series_snapshot(o), 'index_answers': lookups(o.index)}
     if isinstance(o, IndexBase):
-        return index_snapshot(o)
+        return {'snap': index_snapshot(o), 'answers': lookups(o)}
     return None
 
 
@@ -274,6 +291,11 @@ def build(how, spec, caller, wrap='plain', tmpdir=None):
         outer = np.array(['a', 'b'])
         inner = np.array([1, 2, 3])
         caller.extend([outer, inner])
+        if n % 3 == 0:
+            # depth 3, several outer labels: the offsets of the inner nodes matter
+            return sf.IndexHierarchy.from_product(outer, inner, ('x', 'y'))
+        if n % 3 == 1:
+            return sf.IndexHierarchy.from_labels([('a', 1, 'x'), ('a', 1, 'y'), ('a', 2, 'x'), ('b', 1, 'y'), ('b', 3, 'x'), ('b', 3, 'z'), ('c', 2, 'w')])
         return sf.IndexHierarchy.from_product(outer, inner)
     raise ValueError(how)
 
@@ -400,6 +422,28 @@ def run_step(step, live, r_aux):
             return f'{type(tgt).__name__} == itself', tgt == tgt
         if v == 3:
             return f'abs({type(tgt).__name__})', abs(tgt)
+        ihs = [x for x in ([tgt] if isinstance(tgt, IndexBase) else [tgt.index] + ([tgt.columns] if isinstance(tgt, sf.Frame) else []))
+               if isinstance(x, sf.IndexHierarchy)]
+        if v in (4, 5, 6) and ihs and (r // 11) % 2:
+            # calls that derive an index with fewer / more / re-arranged levels (a refused call is a call too)
+            ih = ihs[0]
+            w = (r // 22) % 6
+            try:
+                if w == 0:
+                    return 'IndexHierarchy.level_drop(1)', ih.level_drop(1)
+                if w == 1:
+                    return 'IndexHierarchy.level_drop(-1)', ih.level_drop(-1)
+                if w == 2:
+                    return f'IndexHierarchy.level_drop({ih.depth - 1})', ih.level_drop(ih.depth - 1)
+                if w == 3:
+                    return 'IndexHierarchy.level_add', ih.level_add('top')
+                if w == 4:
+                    return 'IndexHierarchy.rehierarch(reversed)', ih.rehierarch(list(range(ih.depth))[::-1])
+                if not isinstance(tgt, IndexBase):
+                    return f'{type(tgt).__name__}.relabel_level_drop(index=1)', tgt.relabel_level_drop(index=1)
+                return 'IndexHierarchy.flat', ih.flat()
+            except (sf.ErrorInitIndex, NotImplementedError):
+                return 'a refused level call', tgt
         if v == 4 and isinstance(tgt, sf.IndexHierarchy):
             return 'IndexHierarchy.unique(depth 1)', tgt.unique(1)
         if v == 5 and isinstance(tgt, sf.IndexHierarchy):
